@@ -132,6 +132,7 @@ func (q *UdpTaskQueue) popReadyTask() (UdpTask, bool) {
 		return task, true
 	default:
 	}
+	verifYield("convoy.beforeOverflowPop")
 	return q.popOverflowTask()
 }
 
